@@ -188,7 +188,7 @@ Fixpoint advance_to (fuel : nat) (stop : Z) (es : denv * cst) : denv * cst :=
      2 d              virtual time advances by d ns
      3 a kind         the parked transport dial of address a ends: 0 failure, 1 connection
      4 c              ctx_c is cancelled
-     5 a              the address is put in back-off
+     5 a              the address is put in back-off (a < 0: the back-off table of the peer is cleared)
      6                the connection gater will park the next request handling of a worker
                       loop (InterceptAddrDial inside addrsForDial)
      7                the parked gater call returns
@@ -236,7 +236,7 @@ Definition kstep (es : denv * cst) (x : cstim) : denv * cst :=
       (* the cancelled caller's select takes its ctx.Done case (the harness never has a
          response pending at this point), then everything else runs *)
       drain (e, cstep (cstep s (CCancel c)) (CLeave c false))
-  | KBackoff a => drain (de_backoff e (a :: dn_backoff e), s)
+  | KBackoff a => drain (de_backoff e (if a <? 0 then [] else a :: dn_backoff e), s)   (* a < 0: the back-off of the peer has expired *)
   | KPark => (de_park e true (dn_blocked e), s)
   | KRelease => drain (de_park e false None, s)
   end.
